@@ -134,6 +134,17 @@ def programs(tier):
     # nested: gate inside a nested graph; gate routing to a graph node
     inner, _ = g1_program("route2END", False, "e0", "e0")
     inner["name"] = "inner"
+    # a gate that WAITS for a signal, becomes runnable (inputs there, signal already emitted once) together with its targets in the
+    # very step in which the signal's producer is ready again: the gate is held back behind the producer, its targets must wait too
+    for do in (True, False):
+        for chain in (1, 2, 3):
+            nodes = [T.fn("inc", ["n"], ["n"], emit=["tick"], behav="env"), T.route("lp", ["n"], ["inc", "END"])]
+            prev = "seed"
+            for ci in range(chain):
+                nodes.append(T.fn(f"s{ci + 1}", [prev], [f"x{ci + 1}"]))
+                prev = f"x{ci + 1}"
+            nodes += [T.route("pick", [prev], ["ta", "tb"], wait_for=["tick"], default_open=do), T.fn("ta", [prev], ["ra"]), T.fn("tb", [prev], ["rb"])]
+            yield (f"waiting-gate-held-behind-its-producer-{'open' if do else 'closed'}-{chain}", T.prog(nodes), {"n": 0, "seed": ["prov", "seed"]}, dict(dag=False, exact=False, horizon=H_))
     yield ("nested-gate-inside", T.prog([T.gnode("inner", inner), T.fn("sib", ["e0"], ["sb"])]), e, dict(dag=True, exact=True, horizon=8))
     inner2 = T.prog([T.fn("w1", ["e0"], ["w0"])], name="inner2")
     yield ("gate-to-graphnode", T.prog([T.route("gt", ["e0"], ["inner2", "oth"], default_open=False), T.gnode("inner2", inner2), T.fn("oth", ["e0"], ["o0"])]), e, dict(dag=True, exact=True, horizon=8))
@@ -268,10 +279,12 @@ def gate_violations(prog, x, meta):
         tok = steps_by.get((c.run_id, c.step))
         for g in gates:
             # "when a gate and its targets become runnable together the gate decides first": a controlling gate that has
-            # not run yet in this run, has every input available before this step, waits for nothing, and is itself either
+            # not run yet in this run, has every input (and awaited name) available before this step, and is itself either
             # ungated or held only by default-open gates that have not decided either, is runnable now
             not_yet = lambda gid: all(st > c.step for st in gate_steps.get((c.run_id, gid), ()))  # noqa: E731
-            if tok is not None and not_yet(g["id"]) and not g.get("wait_for"):
+            # (a gate that waits for names is runnable once every awaited name has been produced before this step; being held
+            #  back one more step behind a co-ready producer of such a name does not release its targets)
+            if tok is not None and not_yet(g["id"]) and all(w in tok.pre_values for w in g.get("wait_for") or ()):
                 gnode = tok.graph._nodes.get(g.get("name", g["id"]))
                 outer = ctrl_all.get(g["id"], [])
                 if gnode is not None and all((p in tok.pre_values) or gnode.has_default_for(p) or p in tok.graph.inputs.bound for p in gnode.inputs) and all(o.get("default_open", True) and all(st >= c.step for st in gate_steps.get((c.run_id, o["id"]), ())) for o in outer):
